@@ -231,17 +231,17 @@ PLANS["C10"] = {
              "coefficient 1 omitted/written, repeated and cancelling terms, term order, spacing, line breaks, comments, blank lines, bound forms, number spellings (integer, decimal, exponent, unreduced fraction, zero padded), "
              "row/objective names omitted, ...; MPS: 12 coordinates - spacing, 6 RANGES representations, alternative bound types, OBJSENSE/OBJNAME, blank set names, two entries per line, comments, RHS on the objective row, ...) "
              "with <= k non-default coordinates; the problem read must equal the model the text was rendered from, names and all numbers exactly; non-trivial = at least one non-default rendering choice / a string that contains a literal"),
-    "quick": [fam("num-len6", "prod", "num", {"len": 6}, weight=2, crash_props=["C17", "C10", "C11"]),
+    "quick": [fam("num-len7", "prod", "num", {"len": 7}, weight=2, crash_props=["C17", "C10", "C11"]),
               fam("rd-LP-k2", "prod", "rd", {"fmt": "LP", "k": 2, "post": 0}, weight=3, crash_props=["C17", "C10"]),
               fam("rd-MPS-k2", "prod", "rd", {"fmt": "MPS", "k": 2, "post": 0}, weight=2, crash_props=["C17", "C10"]),
               fam("rd-LP-k1-san", "san", "rd", {"fmt": "LP", "k": 1, "post": 0}, weight=1, crash_props=["C17", "C10"]),
               fam("rd-MPS-k1-san", "san", "rd", {"fmt": "MPS", "k": 1, "post": 0}, weight=1, crash_props=["C17", "C10"])],
-    "thorough": [fam("num-len7", "prod", "num", {"len": 7}, weight=4, crash_props=["C17", "C10", "C11"]),
+    "thorough": [fam("num-len8", "prod", "num", {"len": 8}, weight=4, crash_props=["C17", "C10", "C11"]),
                  fam("rd-LP-k2", "prod", "rd", {"fmt": "LP", "k": 2}, weight=3, crash_props=["C17", "C10"]),
                  fam("rd-MPS-k2", "prod", "rd", {"fmt": "MPS", "k": 2}, weight=2, crash_props=["C17", "C10"]),
                  fam("rd-LP-k2-san", "san", "rd", {"fmt": "LP", "k": 2, "post": 0}, weight=4, crash_props=["C17", "C10"]),
                  fam("rd-MPS-k2-san", "san", "rd", {"fmt": "MPS", "k": 2, "post": 0}, weight=3, crash_props=["C17", "C10"])],
-    "bounds": {"quick": "all 1.8M strings of length <= 6 x 3 terminators; all rendering vectors with <= 2 non-default coordinates (56854 LP files, 13482 MPS files)", "thorough": "strings of length <= 7 (16M x 3)"},
+    "bounds": {"quick": "all 16M strings of length <= 7 x 3 terminators; all rendering vectors with <= 2 non-default coordinates (56854 LP files, 13482 MPS files)", "thorough": "strings of length <= 8 (145M x 3); post-read write/re-read of every file; sanitizer build at <= 2 deviations"},
     "evidence": {"states": ["instances"], "transitions": ["executions"], "nontrivial": ["instances_nontrivial"]},
     "assumptions": IO_ASSUME + ["a literal that is immediately followed by characters which make the whole token ungrammatical (\"0E.\") is outside 'syntactically valid file'; the scanner's behaviour there is counted, not judged",
                                 "in free-format MPS a blank set name is only recognisable when a number follows the row/column name; the renderer therefore never leaves the BOUNDS set name blank"],
@@ -354,7 +354,7 @@ PLANS["C17"] = {
              "report, signal or exit() inside the library is attributed to the item that was executing (forked workers, shared progress cell); reproducibility: every item records a transcript hash of all statuses, "
              "rationals, bases and written files, and selected explorations are executed twice - 16 versus 13 shards (different item order per process), MALLOC_PERTURB_, shifted stack - with the XOR of the per-item "
              "hashes compared (a difference is located by a per-item transcript dump); thorough adds Valgrind memcheck (uninitialised values fatal) on the -O2 build"),
-    "quick": _c17_quick_base + _det_quick + [twin(r) for r in _det_quick],
+    "quick": [dict(r, range=[0, 8000]) if r["id"] == "copy-s1-san" else r for r in _c17_quick_base] + _det_quick + [twin(r) for r in _det_quick],
     "thorough": _c17_quick_base + [hist("hist-d3r-san", "san", 3, reduced=1, weight=6), fam("copy-s2-san", "san", "copy", {"steps": 2}, weight=1, range=[0, 150000]),
                                    lp("S0c-sanl1-default", "sanl1", "S0c", "default", weight=4), lp("T-san-default", "san", "T", "default", weight=3, opts={"fam": "T", "cfg": "default", "tscale": 30}),
                                    hist("hist-d2-valgrind", "prod", 2, weight=8, wrapper=VALGRIND, timeout=600),
@@ -362,8 +362,8 @@ PLANS["C17"] = {
                                    hist("hist-d3r-prod", "prod", 3, reduced=1, weight=2), lp("S0c-k1-prodl1", "prodl1", "S0c", "k1", weight=6)]
                 + [twin(hist("hist-d3r-prod", "prod", 3, reduced=1, weight=2)), twin(lp("S0c-k1-prodl1", "prodl1", "S0c", "k1", weight=6))] + _det_quick + [twin(r) for r in _det_quick],
     "post": c17_post,
-    "deadline": {"quick": 900, "thorough": 5400},
-    "bounds": {"quick": "sanitizer build: depth-2 histories, 35k invalid calls, S0mk x entry/pricing/scaling configurations, rendered and written files, all bases of S1q, copy interleavings; double execution of depth-2 histories, S0q1 x K<=1 and MPS chains",
+    "deadline": {"quick": 1200, "thorough": 5400},
+    "bounds": {"quick": "sanitizer build: depth-2 histories, 35k invalid calls, S0mk x entry/pricing/scaling configurations, rendered and written files, all bases of S1q, the first 8000 copy interleavings (all of them in C16/C18 quick and here in thorough); double execution of depth-2 histories, S0q1 x K<=1 and MPS chains",
                "thorough": "adds depth-3 reduced histories and S0c/T on the sanitizer build, Valgrind memcheck on depth-2 histories and S0q1, double execution of depth-3 histories and S0c x K<=1"},
     "evidence": {"states": ["histories", "instances", "invalid_calls", "bases"], "transitions": ["api_transitions", "executions"], "nontrivial": ["histories", "instances_nontrivial", "invalid_calls"]},
     "assumptions": ["clang UBSan's pointer-overflow check is disabled: it flags NULL+0 in ILLlib_newrows on the path the repository's own test takes; no access is performed",
@@ -467,3 +467,55 @@ for _pid, _runs in (("C17", [rdr("rdr-mut", "sanl1", {"mode": "mut"}, weight=3),
     PLANS[_pid]["evidence"]["states"] = PLANS[_pid]["evidence"]["states"] + (["instances"] if "instances" not in PLANS[_pid]["evidence"]["states"] else [])
     PLANS[_pid]["evidence"]["transitions"] = PLANS[_pid]["evidence"]["transitions"] + (["executions"] if "executions" not in PLANS[_pid]["evidence"]["transitions"] else [])
 NOT_YET = {}
+
+# ---------------------------------------------------------------- MANIFEST texts (tools/mkmanifest.py reads these)
+_TB = ("trusted base: the reference side in harness/ref.c (dense rational LP model, exact certificate checkers, Fourier-Motzkin solver whose witnesses are "
+       "re-verified before use), GMP, the compilers and sanitizer runtimes; coverage is exactly the enumerated item space stated in the evidence file - nothing is claimed beyond those bounds")
+LEVELS = {
+    "C01": ("every LP of the enumerated alphabets x every solver configuration of the lattice is solved by the real library and each OPTIMAL answer is re-derived from the reference model by an exact certificate checker (primal and dual feasibility, complementary slackness, equal objective values, all in rationals); a wrong OPTIMAL anywhere in the space is therefore seen, not sampled",
+            "stateless exhaustive enumeration (LP alphabet x configuration lattice with bounded deviations from the default configuration) on the real code; oracle = independent exact certificate checker on a reference model"),
+    "C02": ("same exploration as C01; every INFEASIBLE answer must come with a ray y that the reference side verifies as an exact Farkas certificate (y or -y) against the model's standard form",
+            "stateless exhaustive enumeration (LP alphabet x configuration lattice) on the real code; oracle = exact Farkas checker on a reference model"),
+    "C03": ("the truth of each enumerated LP (status and optimal value) is computed by an independent Fourier-Motzkin reference solver whose witness (point + multipliers, Farkas multipliers, or ray) is verified exactly before it is believed; the library's status and value must be identical; the default precision ladder is used so that give-ups (UNSOLVED) on small problems are visible too",
+            "stateless exhaustive enumeration of LP alphabets and targeted numeric families on the real code; oracle = self-verifying Fourier-Motzkin reference solver"),
+    "C04": ("for every enumerated LP all configurations of the 12-coordinate lattice with <= k deviations from the default (entry point, algorithm, pricing, scaling, precision, warm start from every valid basis, iteration limits, repeats, construction route) must produce the status/value the reference truth dictates; disagreement between any two ways of driving the solver is thereby exposed",
+            "deviation-bounded exhaustive enumeration of the driving-choice lattice x LP alphabet on the real code (iterative bounding: 0, 1, 2 deviations); oracle = reference truth + exact certificates"),
+    "C05": ("explicit-state exploration of edit/solve histories: from each of 7 start problems every sequence of <= d transitions of a 66-operation alphabet (edits, solves, basis loads, deletions...) is applied to the real object and to the reference model; after each step the re-solve must equal a from-scratch solve of the model and cached solution queries must never be stale",
+            "bounded-depth exhaustive enumeration of API operation histories on the real object in lock-step with a reference model (state = history replayed on a fresh object)"),
+    "C06": ("same history space as C05 plus long growth histories; after every transition the complete query surface (counts, names, coefficients, bounds, senses, ranges, rows/columns lists, indices) is dumped from the real object and compared with the reference model",
+            "bounded-depth exhaustive enumeration of API histories with full query-dump conformance against a reference model"),
+    "C07": ("236 invalid calls (bad indices, NULLs, duplicate names, wrong senses, out-of-range counts ...) are issued after every history prefix of bounded depth; each must return an error and the full query dump before and after must be identical, and the object must remain usable",
+            "exhaustive enumeration of (history prefix x invalid call) on the real object; oracle = error return + unchanged full query dump"),
+    "C08": ("a base problem plus every combination of <= k of 123 feature deviations (names, bound shapes, senses, ranges, zero/negative/fractional/huge numbers, integrality, empty rows ...) is built in the real library, written in LP format, read back and compared name-by-name and number-by-number with the model; independent renderers also feed the reader and the result is written and re-read",
+            "deviation-bounded exhaustive enumeration of problem features on the real writer+reader; oracle = reference model equality (identical rationals)"),
+    "C09": ("as C08 for MPS output, plus every conversion chain of length <= 3 between the two formats from each starting format", 
+            "deviation-bounded exhaustive enumeration of problem features x conversion chains on the real writers+readers; oracle = reference model equality"),
+    "C10": ("every character string of bounded length over the number alphabet goes through the real number scanner and an independent recursive-descent reference; independent LP/MPS renderers produce every file with <= k non-default lexical/rendering choices from 62 base problems and the problem read must equal the model rendered",
+            "exhaustive enumeration of all strings up to a length bound (number scanner) and of rendering-choice vectors with bounded deviations (file readers); oracle = reference grammar / reference model"),
+    "C11": ("exhaustive finite neighbourhoods of 13 valid files - all token sequences up to length k after each valid prefix, all single (and windowed pairs of) token and byte edits, all truncations including compressed streams, names/lines/digit strings around internal buffer sizes - are fed to the real readers in sanitizer builds under a watchdog",
+            "exhaustive enumeration of token-sequence/edit/truncation neighbourhoods on the real readers in ASan+UBSan builds with fork containment and watchdog"),
+    "C12": ("for every LP of the alphabets every combination of column/row statuses with the right basic count is loaded through the real API; the library's verdict (accepted, singular, primal/dual feasible, optimal) is compared with exact Gaussian elimination on the model, and every basis the solver returns is checked the same way",
+            "exhaustive enumeration of all status vectors of each enumerated LP on the real code; oracle = exact rational Gauss on the reference model"),
+    "C13": ("all small integer matrices up to the explored dimension and structured families, each with all sequences of <= u column replacements (including singular ones and ones that force refactorization or space exhaustion), run through the real mpq LU factor/update/solve code; ftran/btran results and singularity verdicts are checked by exact multiplication; at API level every B^-1 row and tableau row after every pivot count is multiplied back",
+            "exhaustive enumeration of (matrix x column-replacement sequence) on the real LU code and of (LP x iteration stop) on the real simplex; oracle = exact multiplication back"),
+    "C14": ("for every valid basis of every enumerated LP: load, write to a file, read into a fresh copy, compare statuses; write twice and query after writing to show the basis is not consumed",
+            "exhaustive enumeration of all valid bases of each enumerated LP through the real basis writer/reader"),
+    "C15": ("20 meaning-preserving transformations (row/column permutations, scaling by powers of 2 and rationals, sign flips, slack introduction, bound-to-row conversion, duplicated rows ...) at depth <= d on every LP of the alphabets and on a catalogue of 24 structured LPs; status must be equal and values/solutions must map exactly",
+            "bounded-depth exhaustive enumeration of transformation sequences x LP alphabet on the real solver; metamorphic oracle in exact arithmetic"),
+    "C16": ("after every bounded history a copy is taken; the copy must pass the full query dump against the model, and then every single edit/solve/free applied to either of the two must leave the other's dump unchanged; precision-changing copies are compared value by value with correctly rounded conversions",
+            "exhaustive enumeration of (history x copy point x subsequent operation on either side) on the real objects; oracle = full query-dump conformance"),
+    "C17": ("the explorations of the other properties are re-run in ASan+UBSan builds (every item in a forked worker so a crash is attributed to its item) and in twin executions with different process layout, allocator poisoning and stack shift whose transcripts (statuses, values, bases, written files) must hash identically",
+            "the exhaustive item spaces of C01-C16 executed under ASan/UBSan plus twin-run transcript comparison (different sharding, MALLOC_PERTURB_, shifted stack)"),
+    "C18": ("allocation balance (sanitizer allocator byte counter before QSexactStart-level setup and after teardown) must be zero for every history, invalid call, copy scenario and rejected input file enumerated",
+            "exhaustive enumeration of histories / invalid calls / rejected inputs in ASan builds; oracle = allocator byte balance per item"),
+    "C19": ("esolver is run as a child process on every enumerated LP written in up to 8 file kinds with <= 1 non-default option; its exit status, status line and printed solution are checked against the reference truth and an exact certificate rebuilt from the printed numbers; malformed inputs must fail cleanly",
+            "exhaustive enumeration of (LP x file kind x option vector with bounded deviations) on the real esolver binary; oracle = reference truth + exact certificate from the printed output"),
+    "C20": ("with a log handler installed, file descriptors 1 and 2 are redirected to a memory file for every item of the histories, invalid calls, solves under display levels, readers fed with bad files, and writers; any byte written is a violation",
+            "the exhaustive item spaces of C05/C07/C04/C10/C11 executed with fd 1 and 2 captured; oracle = capture is empty"),
+}
+for _pid, (_text, _tech) in LEVELS.items():
+    _pl = PLANS[_pid]
+    _b = _pl.get("bounds", {})
+    _pl["level_text"] = _text + ". Bounds - quick: %s; thorough: %s." % (_b.get("quick", "see evidence"), _b.get("thorough", "see evidence"))
+    _pl["technique"] = _tech
+    _pl["level_note"] = "; ".join(_pl.get("assumptions", [])) + ("; " if _pl.get("assumptions") else "") + _TB
